@@ -296,6 +296,7 @@ def run(ctx):
     fp_jobs, fp_state = footprint_jobs(ctx, datasets, rng, quick)
     base["broken"] = False
     jobs = [dict(base, phase="corpus"), dict(base, phase="tree_model"), dict(base, phase="part_writers"), dict(base, phase="native_codecs"),
+            dict(base, phase="iter_race", datasets=datasets[:1] if quick else datasets),
             dict(base, phase="multi_switch", datasets=datasets)]
     fb = 42 if quick else 400
     for di, d in enumerate(datasets):
@@ -431,6 +432,14 @@ def static_inventory(ctx):
             if not ok3:
                 ctx.extra["op_table_offenders"] = ores["offenders"][:12]
             INV["optable"] = tab
+            ic = ores.get("iteration_conflicts") or []
+            ctx.extra.setdefault("op_table_iteration", {})["deep_iteration_sites"] = sorted(set("%s %s" % (x["site"], x["call"]) for x in ic))
+            ctx.extra["op_table_iteration"]["keyset_reads"] = {r_["op"]: len(r_.get("keyset_reads", [])) for r_ in tab["rows"]}
+            if ic:
+                # heuristic (type-blind) clause: advisory search trigger; the iter_race phase is the search
+                ctx.extra.setdefault("static_advisories", []).append({"file": "translators/opreads.py", "first_failing_clause": "no deep iteration over a shared object next to a publication of a new key",
+                                                                      "what": {"deep_iteration_vs_new_key": ic[:6]}})
+                INV["advisory_failed"] = True
             d_ = json.load(open(INV["path"]))         # the workers need the read sets too (unread locations are volatile)
             d_["optable"] = {"rows": [{"op": r_["op"], "reads": r_["reads"]} for r_ in tab["rows"]]}
             json.dump(d_, open(INV["path"], "w"))
@@ -583,6 +592,8 @@ def _job(job):
               targeted_search(rec, datasets, rec.rng, quick, job["target"])
           elif ph == "native_codecs":
               native_codecs(rec, rec.rng, quick)
+          elif ph == "iter_race":
+              iter_race(rec, datasets, rec.rng, quick)
           elif ph == "site_search":
               site_search(rec, datasets, rec.rng, quick, job["target"])
           else:
@@ -1100,15 +1111,17 @@ def confirmed_hang(ctx, path, ops, rng_seed=0):
     return hung
 
 
-def check_pair(ctx, spec, path, solo, ops, plan, what, opcodes=False):
-    """one forced schedule on a fresh shared handle; both results against the solo results"""
+def check_pair(ctx, spec, path, solo, ops, plan, what, opcodes=False, deep=False):
+    """one forced schedule on a fresh (COLD) shared handle; both results against the solo results"""
     from fastparquet import ParquetFile
     pf = ParquetFile(path)
-    res, steps, dead = conc.forced_run(pf, ops, [list(p) for p in plan], opcodes=opcodes, timeout=150.0 if opcodes else 60.0)
+    res, steps, dead = conc.forced_run(pf, ops, [list(p) for p in plan], opcodes=opcodes, timeout=150.0 if opcodes else 60.0, deep=deep)
     if dead and not confirmed_hang(ctx, path, ops):
         return False
     got = [conc.canon(r) for r in res]
     case = {"mode": "forced", "dataset": spec, "ops": ops, "plan": plan}
+    if deep:
+        case["deep"] = True
     if isinstance(opcodes, (list, tuple)):
         case["granularity"] = ["opcode" if o else "line" for o in opcodes]
     elif opcodes:
@@ -1256,6 +1269,39 @@ def readers_of(key, site, covered, di):
                         out.append([fn, ln, op_])
                         break
     return out[:10]
+
+
+def iter_race(ctx, datasets, rng, quick):
+    """Iteration over a shared dict against an idempotent publication of a NEW key into it (C20_iter_vs_new_key_refuted): the
+    publication is confluent for readers of the key, not for iterators of the dict.  Thread A derives / copies / pickles the handle
+    and is preempted at a line INSIDE the library code that walks the containers (copy.deepcopy, pickle, json frames are traced
+    too); thread B - the FIRST filtered read on this cold handle, the one that memoises converted_min/max into the statistics
+    dicts - runs completely in the gap; A finishes.  Preemption points are spread evenly over A's run."""
+    from fastparquet import ParquetFile
+    clock = Clock(ctx, "iter_race", 45 if quick else 600)
+    npoints = 8 if quick else 40
+    for spec, path, solo in datasets:
+        if spec["kind"] == "file":
+            continue
+        cols = spec.get("cols", [])
+        b = {"op": "count", "filters": [[c_, ">", v_] for c_, v_ in (("t", {"dt": "2020-01-01T01:00"}), ("i", -1), ("f", -1.0), ("s", "a")) if c_ in cols]}
+        solo(b)
+        for a in ({"op": "slice_only", "i": 0, "j": None}, {"op": "index", "i": 0, "columns": cols[:1]}, {"op": "copy", "columns": cols[:1]},
+                  {"op": "deepcopy", "columns": cols[:1]}, {"op": "pickle", "columns": cols[:1]}, {"op": "head", "n": 2, "columns": cols[:1]}):
+            if clock.over():
+                return
+            solo(a)
+            try:
+                na = with_alarm(120, conc.count_steps, ParquetFile(path), a, None, False, True)
+            except TimeoutError:
+                continue
+            ctx.count("iter_race.steps", min(na // 1000 * 1000, 20000))
+            for j in range(npoints):
+                if clock.over():
+                    return
+                n = max(1, int((j + 0.5) * na / npoints) + rng.randrange(-3, 4))
+                if check_pair(ctx, spec, path, solo, [a, b], [[0, n, "lines"], [1, BIG, "lines"]], "iter-race", False, True):
+                    break
 
 
 def native_codecs(ctx, rng, quick):
@@ -1792,7 +1838,7 @@ def replay(rep):
             return 1
         if mode == "forced":
             pf = ParquetFile(path)
-            res, steps, dead = conc.forced_run(pf, case["ops"], [list(p) for p in case["plan"]], opcodes=opc)
+            res, steps, dead = conc.forced_run(pf, case["ops"], [list(p) for p in case["plan"]], opcodes=opc, deep=bool(case.get("deep")))
             got = [conc.canon(r) for r in res]
             bad = 0
             for i, op in enumerate(case["ops"]):
